@@ -452,6 +452,58 @@ func (o *txnOracle) c04() []Violation {
 						}
 					}
 				}
+				// a read through the index on the value column: a row whose committed value equals the token
+				// before the statement and which no commit changes during the statement must be returned
+				if s.St.Kind == "readv" {
+					for k := int32(1); k <= int32(o.rows); k++ {
+						if seen[k] || ownDel[k] || o.vol[k] {
+							continue
+						}
+						if _, mine := own[k]; mine {
+							continue
+						}
+						val := o.init[k]
+						present, touched := true, false
+						for _, c := range writes[k] {
+							if c.endRet < s.Call {
+								present, val = !c.del, c.token
+							} else if c.endCall <= s.Ret {
+								touched = true
+							}
+						}
+						if !present || touched || val != s.St.Token {
+							continue
+						}
+						// was another transaction in the middle of changing this row (statement done, not ended)?
+						openWriter := -1
+						for i := range o.hist {
+							w := &o.hist[i]
+							if w.ID == t.ID {
+								continue
+							}
+							for _, ws := range w.Stmts {
+								// the writer's statement had started before the read returned, and the writer had
+								// not ended (commit or abort completed) before the read started
+								if ws.Call > s.Ret || (w.EndRet != 0 && w.EndRet < s.Call) {
+									continue
+								}
+								switch ws.St.Kind {
+								case "write", "writerange":
+									for _, wk := range ws.St.keys(o.rows) {
+										if wk == k {
+											openWriter = w.ID
+										}
+									}
+								}
+							}
+						}
+						if openWriter >= 0 {
+							add("committed-row-hidden-by-uncommitted-key-update", fmt.Sprintf("txn %d %s (steps %d-%d) does not return key %d (committed value %d) and was not aborted: txn %d had changed the indexed value of that row and had not ended", t.ID, s.St.SQL(), s.Call, s.Ret, k, val, openWriter))
+						} else {
+							add("committed-row-hidden", fmt.Sprintf("txn %d %s (steps %d-%d) does not return key %d although its committed value is %d before the statement and no commit changes it during the statement", t.ID, s.St.SQL(), s.Call, s.Ret, k, val))
+						}
+					}
+				}
 				// hiding: a key in the statement's range whose committed state is "present" for the
 				// whole window (no other writer of it committed or was in flight in the window) must appear
 				for _, k := range s.St.keys(o.rows) {
